@@ -472,6 +472,83 @@ mut("C09", "SILENT_nonreturning_before_dup", PRJ, """        make_block_to_sub_m
         logs.append(&mut more);
 """, [], "pure refactoring of normalize_basic (must NOT be reported)")
 
+# ---------------- C08
+GR = L + "analysis/graph.rs"
+mut("C08", "callind_no_stub", GR, """                    self.graph
+                        .add_edge(source, return_to_node, Edge::ExternCallStub(jump));
+                }
+            }
+            Jmp::CallOther {""", """                    let _ = return_to_node;
+                }
+            }
+            Jmp::CallOther {""", ["R1|jmp|CallInd"], "indirect calls get no stub edge")
+mut("C08", "else_edge_unmarked", GR, "self.add_jump_edge(node, else_jump, Some(if_jump));", "self.add_jump_edge(node, else_jump, None);", ["R3|two-jump-arm"], "else edge not marked with the untaken conditional")
+mut("C08", "callother_stub", GR, """            Jmp::CallOther {
+                description: _,
+                return_: _,
+            } => {""", """            Jmp::CallOther {
+                description: _,
+                return_: Some(tid),
+            } => {
+                self.add_intraprocedural_edge(source, tid, jump, untaken_conditional);
+            }
+            Jmp::CallOther {
+                description: _,
+                return_: None,
+            } => {""", ["R1|jmp|CallOther"], "CallOther gets an edge")
+mut("C08", "extern_stub_without_return_check", GR, """                if self.extern_subs.contains(target) {
+                    if let Some(return_to_node) = return_to_node_option {
+                        self.graph
+                            .add_edge(source, return_to_node, Edge::ExternCallStub(jump));
+                    }
+                } else {""", """                if self.extern_subs.contains(target) || self.call_targets.get(target).is_none() {
+                    if let Some(return_to_node) = return_to_node_option {
+                        self.graph
+                            .add_edge(source, return_to_node, Edge::ExternCallStub(jump));
+                    }
+                } else {""", ["R1|call|extern-stub"], "stub edges also for calls to unknown internal targets")
+mut("C08", "jump_ignores_marking", GR, """            self.graph
+                .add_edge(source, *target_node, Edge::Jump(jump, untaken_conditional));
+        } else {""", """            self.graph
+                .add_edge(source, *target_node, Edge::Jump(jump, None));
+        } else {""", ["R3|add_intraprocedural_edge"], "marking dropped when the target node already exists")
+mut("C08", "cr_edges_swapped", GR, """            self.graph
+                .add_edge(*call_node, return_combine_node, Edge::CrCallStub);
+            self.graph
+                .add_edge(return_source, return_combine_node, Edge::CrReturnStub);""", """            self.graph
+                .add_edge(*call_node, return_combine_node, Edge::CrReturnStub);
+            self.graph
+                .add_edge(return_source, return_combine_node, Edge::CrCallStub);""", ["R1|call-return|endpoints"], "call/return stub edge kinds swapped")
+mut("C08", "return_edges_before_calls", GR, """        self.add_jump_and_call_edges();
+        self.add_return_edges();""", """        self.add_return_edges();
+        self.add_jump_and_call_edges();""", ["R4|build|order"], "return linkage built before call edges exist")
+mut("C08", "block_always_added", GR, """        if let Some((target_node, _)) = self
+            .jump_targets
+            .get(&(target_tid.clone(), sub_term.tid.clone()))
+        {
+            self.graph
+                .add_edge(source, *target_node, Edge::Jump(jump, untaken_conditional));
+        } else {
+            let target_block = self.program.term.find_block(target_tid).unwrap();
+            let (target_node, _) = self.add_block(target_block, sub_term);
+            self.graph
+                .add_edge(source, target_node, Edge::Jump(jump, untaken_conditional));
+        }""", """        {
+            let target_block = self.program.term.find_block(target_tid).unwrap();
+            let (target_node, _) = self.add_block(target_block, sub_term);
+            self.graph
+                .add_edge(source, target_node, Edge::Jump(jump, untaken_conditional));
+        }""", ["R4|add_intraprocedural_edge|add_block-only-on-miss"], "duplicate node pairs per (block, sub)")
+mut("C08", "first_sub_skipped", GR, """        let subs = self.program.term.subs.values();
+        for sub in subs {""", """        let subs = self.program.term.subs.values().skip(1);
+        for sub in subs {""", ["R4|add_program_blocks"], "blocks of one function get no nodes")
+mut("C08", "edge_added_by_client", L + "analysis/dead_variable_elimination/mod.rs", """    let mut graph = crate::analysis::graph::get_program_cfg(&project.program);
+    graph.reverse();""", """    let mut graph = crate::analysis::graph::get_program_cfg(&project.program);
+    if let (Some(a), Some(b)) = (graph.node_indices().next(), graph.node_indices().last()) {
+        graph.add_edge(a, b, crate::analysis::graph::Edge::Block);
+    }
+    graph.reverse();""", ["R2|only-GraphBuilder-builds"], "a client adds an edge to the CFG")
+
 for prop, name, spec in M:
     if name.startswith("SILENT_"):
         spec["silent"] = True
